@@ -595,7 +595,11 @@ pub fn worker(cfg: &WorkerCfg) -> Value {
     let big = cfg.thorough;
     let known = cfg.known.clone();
     let current = cfg.current.clone();
+    let wd = cfg.hang_marker.clone().map(|m| crate::runner::Watchdog::start(m, crate::runner::case_time_limit(cfg.thorough) * 4));
     let result = runner.run(&strat, |fc| {
+        if let Some(w) = &wd {
+            w.begin(|| serde_json::to_string(&fc).unwrap_or_default());
+        }
         if let Some(p) = &current {
             let _ = std::fs::write(p, serde_json::to_string(&fc).unwrap_or_default());
         }
